@@ -650,7 +650,10 @@ def trace_cfg():
              '  BinCat <- NoCat', '  BinIds = {}', '  NFold = 0', '  FoldSrcs = {}', '  FoldPrecCat <- NoCat',
              '  FoldPrecIds = {}', '  PermLevel = 0', '  EmitMod = 1', '  EmitCoef = FALSE',
              'INIT TInit', 'NEXT TNext']
-    lines += [f'INVARIANT {i}' for i in dict.fromkeys(C01_INVS + C02_INVS + ['StagesAgree', 'Admissible'])]
+    # (CoefWithinFoldZero is data independent and checked on every enumerated design; it is quadratic in the
+    # number of observations and left out for the recorded 22-36 observation designs)
+    lines += [f'INVARIANT {i}' for i in dict.fromkeys(C01_INVS + C02_INVS + ['StagesAgree', 'Admissible'])
+              if i != 'CoefWithinFoldZero']
     lines.append('CHECK_DEADLOCK FALSE')
     return '\n'.join(lines) + '\n'
 
